@@ -31,6 +31,7 @@ type Case struct {
 	M      int    `json:"m"`    // calls per goroutine
 	Seed   int64  `json:"seed"`
 	Delay  int    `json:"delay"` // 0 none, 1 yields, 2 short sleeps in the transport
+	Block  bool   `json:"block"` // serial: empty port reads block for a few milliseconds
 }
 
 func Spec() *mon.Spec {
@@ -55,20 +56,26 @@ func Spec() *mon.Spec {
 
 func gen(g *mon.Gen) {
 	rng := g.Rng
-	n := g.Pick(40, 2500)
-	for i := 0; i < n; i++ {
-		client := []int{0, 1, 0, 1, 2}[i%5]
-		mode := []string{"plain", "plain", "cancel", "lifecycle", "linear", "plain", "linear"}[i%7]
-		gs := []int{2, 4, 8, 32}[rng.Intn(4)]
-		m := 5 + rng.Intn(40)
-		if client == clientx.Serial {
-			gs = []int{2, 4, 8}[rng.Intn(3)]
-			m = 2 + rng.Intn(4)
+	reps := g.Pick(3, 200)
+	i := 0
+	for rep := 0; rep < reps; rep++ {
+		for client := 0; client < 3; client++ {
+			for _, mode := range []string{"plain", "cancel", "lifecycle", "linear"} {
+				gs := []int{2, 4, 8, 32}[rng.Intn(4)]
+				m := 5 + rng.Intn(40)
+				if client == clientx.Serial {
+					gs = []int{2, 4, 8}[rng.Intn(3)]
+					m = 2 + rng.Intn(4)
+				}
+				if gs == 32 {
+					m = 5 + rng.Intn(10)
+				}
+				// Block alternates so that every serial mode is run both against a port whose empty reads return at once
+				// and one whose reads really block for a few milliseconds
+				g.Emit(&Case{Client: client, Mode: mode, G: gs, M: m, Seed: rng.Int63(), Delay: i % 3, Block: rep%2 == 0})
+				i++
+			}
 		}
-		if gs == 32 {
-			m = 5 + rng.Intn(10)
-		}
-		g.Emit(&Case{Client: client, Mode: mode, G: gs, M: m, Seed: rng.Int63(), Delay: i % 3})
 	}
 }
 
@@ -76,6 +83,9 @@ func gen(g *mon.Gen) {
 
 type owner struct {
 	g, k      int
+	noReply   bool // the device never answers this request (absent unit): its caller polls until it is cancelled
+	cancel    func()
+	polls     int
 	cancelled atomic.Bool
 	returned  atomic.Bool
 }
@@ -94,6 +104,8 @@ type devConn struct {
 	viol    []string
 	closed  bool
 	writes  int
+	// blocking: Read blocks for a few milliseconds when nothing is readable (serial-port like)
+	blocking bool
 }
 
 func (d *devConn) jitter() {
@@ -141,6 +153,9 @@ func (d *devConn) Write(p []byte) (int, error) {
 	if d.delay > 0 {
 		d.readyAt = d.rng.Intn(4)
 	}
+	if ow != nil && ow.noReply {
+		d.readyAt = 1 << 30
+	}
 	return len(p), nil
 }
 
@@ -151,11 +166,30 @@ func (d *devConn) Read(p []byte) (int, error) {
 	if d.closed {
 		return 0, io.ErrClosedPipe
 	}
-	if len(d.pending) == 0 {
-		return 0, os.ErrDeadlineExceeded
-	}
-	if d.readyAt > 0 {
-		d.readyAt--
+	if len(d.pending) == 0 || d.readyAt > 0 {
+		if d.readyAt > 0 && len(d.pending) > 0 {
+			d.readyAt--
+		}
+		if ow := d.owner; ow != nil && ow.noReply && ow.cancel != nil {
+			ow.polls++
+			if ow.polls == 2 { // the caller is polling for a reply that will never come: cancel it while this Read is pending
+				ow.cancelled.Store(true)
+				ow.cancel()
+			}
+		}
+		if d.blocking { // like a serial port with a per-read timeout: an empty read really blocks for a while
+			d.mu.Unlock()
+			time.Sleep(3 * time.Millisecond)
+			d.mu.Lock()
+			if d.closed {
+				return 0, io.ErrClosedPipe
+			}
+			if len(d.pending) > 0 && d.readyAt == 0 {
+				n := copy(p, d.pending)
+				d.pending = d.pending[n:]
+				return n, nil
+			}
+		}
 		return 0, os.ErrDeadlineExceeded
 	}
 	n := copy(p, d.pending)
@@ -217,7 +251,8 @@ func run(ci any, r *mon.Rec) {
 	newConn := func() *devConn {
 		cmu.Lock()
 		defer cmu.Unlock()
-		d := &devConn{fr: fr, dev: dev, delay: c.Delay, rng: rand.New(rand.NewSource(c.Seed + int64(len(conns)))), owners: lookup}
+		d := &devConn{fr: fr, dev: dev, delay: c.Delay, rng: rand.New(rand.NewSource(c.Seed + int64(len(conns)))), owners: lookup,
+			blocking: c.Client == clientx.Serial && c.Block}
 		conns = append(conns, d)
 		return d
 	}
@@ -328,11 +363,20 @@ func run(ci any, r *mon.Rec) {
 					return
 				}
 				ow := &owner{g: g, k: k}
+				willCancel := c.Mode == "cancel" && lr.Intn(3) == 0
+				// half of the callers that will be cancelled talk to a unit that never answers: they are cancelled while
+				// they poll the transport (after the serial client's 30 ms settle time), not while they queue for the lock
+				ow.noReply = willCancel && lr.Intn(2) == 0
+				if ow.noReply {
+					ow.cancelled.Store(false)
+				}
 				omu.Lock()
 				owners[uint32(q.Addr)<<16|uint32(q.Qty)] = ow
 				omu.Unlock()
 				ctx, cancel := context.WithCancel(context.Background())
-				if c.Mode == "cancel" && lr.Intn(3) == 0 {
+				if ow.noReply {
+					ow.cancel = cancel // cancelled by the transport at the caller's second poll
+				} else if willCancel {
 					d := time.Duration(lr.Intn(400)) * time.Microsecond
 					go func() {
 						time.Sleep(d)
@@ -351,8 +395,8 @@ func run(ci any, r *mon.Rec) {
 				cancel()
 				if derr != nil {
 					errCalls.Add(1)
-					if c.Mode == "plain" {
-						addViol("call-fails", fmt.Sprintf("caller %d.%d: %v", g, k, derr))
+					if c.Mode == "plain" || (c.Mode == "cancel" && !ow.cancelled.Load()) {
+						addViol("call-fails", fmt.Sprintf("caller %d.%d (its context was not cancelled; the device answers every request): %v", g, k, derr))
 					}
 					continue
 				}
